@@ -18,7 +18,7 @@ package main
 // pointers (for []byte it copies: result aliases dst, never src);
 // string(bytes), []byte(string), make, new allocate and have no edge.
 // "a reaches b" (path) = memory reachable from a may overlap memory reachable
-// from b.  A call applies the callee's summary: reachability between its
+// from b.  A call applies the callee's provSummary: reachability between its
 // parameters, free variables and results, plus its "leaf stores" expressed
 // over those slots; summaries are iterated to a global fixpoint (decoders are
 // mutually recursive).  github.com/u-root/uio/uio is analysed FROM SOURCE with
@@ -94,13 +94,13 @@ type leafKey struct {
 	dst, src slotSet
 }
 
-type summary struct {
+type provSummary struct {
 	edges      map[[2]int]bool
 	leaves     map[leafKey]bool
 	unresolved map[string]bool // dynamic calls that could not be resolved (conservative)
 }
 
-func (s *summary) size() int { return len(s.edges) + len(s.leaves) + len(s.unresolved) }
+func (s *provSummary) size() int { return len(s.edges) + len(s.leaves) + len(s.unresolved) }
 
 type ctxKey struct {
 	fn   *ssa.Function
@@ -110,7 +110,7 @@ type ctxKey struct {
 type ctxInfo struct {
 	key   ctxKey
 	binds map[int]*ssa.Function // func-typed parameter index -> bound function
-	sum   *summary
+	sum   *provSummary
 }
 
 type analyzer struct {
@@ -337,7 +337,7 @@ func (a *analyzer) ctx(fn *ssa.Function, binds map[int]*ssa.Function) *ctxInfo {
 	if c, ok := a.ctxs[k]; ok {
 		return c
 	}
-	c := &ctxInfo{key: k, binds: binds, sum: &summary{edges: map[[2]int]bool{}, leaves: map[leafKey]bool{}, unresolved: map[string]bool{}}}
+	c := &ctxInfo{key: k, binds: binds, sum: &provSummary{edges: map[[2]int]bool{}, leaves: map[leafKey]bool{}, unresolved: map[string]bool{}}}
 	a.ctxs[k] = c
 	a.order = append(a.order, c)
 	return c
@@ -371,7 +371,7 @@ type localLeaf struct {
 	addr, val int
 }
 
-func (a *analyzer) analyze(c *ctxInfo) *summary {
+func (a *analyzer) analyze(c *ctxInfo) *provSummary {
 	fn := c.key.fn
 	g := newGraph()
 	np, nf, nr := slotCount(fn)
@@ -394,7 +394,7 @@ func (a *analyzer) analyze(c *ctxInfo) *summary {
 			g.union(slotNode[np+i], g.id(p))
 		}
 	}
-	out := &summary{edges: map[[2]int]bool{}, leaves: map[leafKey]bool{}, unresolved: map[string]bool{}}
+	out := &provSummary{edges: map[[2]int]bool{}, leaves: map[leafKey]bool{}, unresolved: map[string]bool{}}
 	var apps []callApp
 	var locals []localLeaf
 	ord := 0
@@ -415,7 +415,7 @@ func (a *analyzer) analyze(c *ctxInfo) *summary {
 	nodeVal := func(v ssa.Value) int {
 		if tracked(v) {
 			if gl, ok := v.(*ssa.Global); ok {
-				// package-level variables: one blob per function, a slot of the summary
+				// package-level variables: one blob per function, a slot of the provSummary
 				n := g.id(gl)
 				g.union(glob, n)
 				return n
